@@ -42,8 +42,16 @@ ASSUMPTIONS = [
     "(Props/C07.lean) and otherwise checked on every generated input (an exhausted fuel would be a correspondence disagreement)",
     "Product.safe orders factors by a partial key with ties in set-iteration order: factor order is not modelled, products "
     "are compared as multisets",
-    "known findings are keyed by (failure kind, graph and event of the SHRUNK failing input up to renaming of variables); the "
-    "shrinker keeps the failure kind (wrong value / wrong zero / crash class) fixed while shrinking",
+    "known findings: keys by minimal shrunk events did not converge (30 minimal forms after ~150 000 cases, a new one every "
+    "~20 000 cases), so a wrong value / wrong Zero is LOCATED instead: the recursion tree of the real id_star is recorded, "
+    "every recursive call is judged on its own event by the same exact oracle, and the failure is blamed on a wrong call all of "
+    "whose sub-calls are right; the key is (failure kind, step of the blamed call: line 6 or line 9, first of the known defect "
+    "patterns present at that step: M1 starred event value -> unstarred subscript, M2 starred self-intervention -> unstarred "
+    "subscript, M3a two copies of a variable in one district, M3b a subscript cannot tell copies of a variable apart, M3c "
+    "unobserved copy not summed, M5 pillow variable also in the district, D1 two copies reach line 9, D2 several worlds get the "
+    "union of subscripts). A blamed step that shows NONE of the patterns gets the key 'none', which is never listed, i.e. it is "
+    "reported as a new violation; a failure that cannot be located (crashes, other steps) is keyed by its shrunk input as "
+    "before. A new defect that only ever co-occurs with a listed pattern at the same step would be masked",
 ]
 EXHAUSTIVE = {"quick": False, "thorough": True}   # thorough: every graph on <=2 nodes x every event with <=2 conjuncts
 LEANCHECK_MODULES = ["Y0.Model.Cg", "Y0.Model.IdStar", "Y0.Props.C07"]
@@ -130,19 +138,21 @@ def _judge(case, res, exc, n_models):
 
 def _evaluate(case, n_models=8, with_unpatched=True):
     strategies = K.id_strategies(case["event"])
-    by_order, excs = [], {}
+    by_order, excs, strat_of = [], {}, {}
     for s in strategies:
         r, exc = _run_real(case, s)
         by_order.append(r)
         excs[json.dumps(r)] = exc
+        strat_of.setdefault(json.dumps(r), s)
     results = list(by_order)
     r0 = None
     if with_unpatched:
         r0, exc0 = _run_real(case, None)
         excs.setdefault(json.dumps(r0), exc0)
+        strat_of.setdefault(json.dumps(r0), None)
         results = [r0] + results
     dom = C18._in_domain(case)
-    fail = kind = None
+    fail = kind = strategy = None
     if dom:
         seen = []
         for r in results:
@@ -151,8 +161,154 @@ def _evaluate(case, n_models=8, with_unpatched=True):
             seen.append(r)
             fail, kind = _judge(case, r, excs.get(json.dumps(r)), n_models)
             if fail:
+                strategy = strat_of.get(json.dumps(r))
                 break
-    return {"by_order": by_order, "unpatched": r0, "fail": fail, "kind": kind, "in_domain": dom}
+    return {"by_order": by_order, "unpatched": r0, "fail": fail, "kind": kind, "in_domain": dom, "strategy": strategy}
+
+
+# ------------------------------------------------------------------------------------------ locating a failure in the recursion
+
+
+def _call_tree(case, strategy):
+    """run the real id_star under `strategy`, recording (without changing behaviour) the tree of recursive calls, the
+    counterfactual graph each call built and the arguments / results of get_events_of_district (line 6)"""
+    import importlib
+
+    ids = importlib.import_module("y0.algorithm.identify.id_star")
+    root = {"children": []}
+    stack = [root]
+    with K.fixed_orders(strategy):
+        orig, orig_ged, orig_cg = ids.id_star, ids.get_events_of_district, ids.make_counterfactual_graph
+
+        def rec(graph, event, **kw):
+            node = {"event": dict(event), "children": [], "l6": [], "cg": None, "result": None}
+            stack[-1]["children"].append(node)
+            stack.append(node)
+            try:
+                node["result"] = orig(graph, event, **kw)
+                return node["result"]
+            except Exception as e:
+                node["result"] = e
+                raise
+            finally:
+                stack.pop()
+
+        def ged(graph, district, event):
+            r = orig_ged(graph, district, event)
+            stack[-1]["l6"].append((graph, list(district), dict(event), dict(r)))
+            return r
+
+        def mcg(graph, event):
+            r = orig_cg(graph, event)
+            stack[-1]["cg"] = (r[0], None if r[1] is None else dict(r[1]))
+            return r
+        ids.id_star, ids.get_events_of_district, ids.make_counterfactual_graph = rec, ged, mcg
+        try:
+            try:
+                rec(G.to_nx_mixed(case["g"]), K.dec_event(case["event"]))
+            except Exception:
+                pass
+        finally:
+            ids.id_star, ids.get_events_of_district, ids.make_counterfactual_graph = orig, orig_ged, orig_cg
+    return root["children"][0]
+
+
+def _node_fails(case, node):
+    """is the answer of this (recursive) call wrong for ITS OWN event?  (the symbols an outer Sum binds are just values here)"""
+    from y0.dsl import Expression
+
+    if not isinstance(node["result"], Expression):
+        return None
+    c7 = {"g": case["g"], "event": K.enc_event(node["event"]), "seed": case.get("seed", 0)}
+    if not c7["event"] or not C18._in_domain(c7):
+        return None
+    res = ["ok", K.canon_expr(E.to_str_tree(E.enc_expr(node["result"])))]
+    for ds in (0, 7919):
+        f, kind = _judge(dict(c7, seed=c7["seed"] + ds), res, None, 8)
+        if f:
+            return kind
+    return None
+
+
+def _blame(case, node):
+    """a wrong call none of whose recursive calls is wrong: the step that breaks is in this call itself"""
+    for ch in node["children"]:
+        if _node_fails(case, ch):
+            return _blame(case, ch)
+    return node
+
+
+def _is_self_intervened(v):
+    return any(i.name == v.name for i in getattr(v, "interventions", ()))
+
+
+def _local_class(node):
+    """(step, tags): which step of the blamed call produced the answer and which of the known defect patterns are present
+    there.  step 'line6' (district decomposition) / 'line9' (base case) / None (something else: keyed exactly)."""
+    from y0.dsl import CounterfactualVariable
+
+    if node["l6"]:
+        tags = set()
+        pillows = {}
+        ev0 = node["l6"][0][2]
+        ev_bases = {k.name for k in ev0}
+        for graph, district, event, _ in node["l6"]:
+            pillow = graph.get_markov_pillow(district)
+            dbases = [d.name for d in district]
+            if len(set(dbases)) < len(dbases):
+                tags.add("M3a:two-copies-of-a-variable-in-one-district")
+            for d in district:
+                if d not in event and d.name in ev_bases:
+                    tags.add("M3c:unobserved-copy-not-summed-because-another-copy-is-in-the-event")
+            for p_ in pillow:
+                pillows.setdefault(p_.name, set()).add(p_)
+                if p_.name in dbases:
+                    tags.add("M5:pillow-variable-also-in-the-district")
+                if p_ in event:
+                    if event[p_].star:
+                        tags.add("M1:starred-event-value-becomes-unstarred-subscript")
+                elif _is_self_intervened(p_):
+                    if any(i.name == p_.name and i.star for i in p_.interventions):
+                        tags.add("M2:starred-self-intervention-becomes-unstarred-subscript")
+                elif p_.name in ev_bases:
+                    tags.add("M3c:unobserved-copy-not-summed-because-another-copy-is-in-the-event")
+        everyone = {}
+        for _, district, _, _ in node["l6"]:
+            for d in district:
+                everyone.setdefault(d.name, set()).add(d)
+        if any(len(v | everyone.get(b, set())) > 1 for b, v in pillows.items()):
+            # a subscript made from a pillow node names its base only: it is indistinguishable from every other copy of
+            # that variable in this call (another pillow node, a summed node, an event node)
+            tags.add("M3b:subscript-cannot-tell-copies-of-a-variable-apart")
+        return "line6", sorted(tags)
+    if not node["children"] and node["cg"] is not None and node["cg"][1] is not None:
+        cf = node["cg"][0]
+        nsi = [n for n in cf.nodes() if not _is_self_intervened(n)]
+        tags = set()
+        if len({n.name for n in nsi}) < len(nsi):
+            tags.add("D1:two-copies-of-a-variable-reach-line-9")
+        worlds = {frozenset(n.interventions) if isinstance(n, CounterfactualVariable) else frozenset() for n in nsi}
+        if len(worlds) > 1:
+            tags.add("D2:nodes-of-several-worlds-get-the-union-of-all-subscripts")
+        return "line9", sorted(tags)
+    return None, []
+
+
+def _coarse_key(case, r):
+    """finding key of a wrong value / wrong Zero located in the recursion: (kind, step of the blamed call, defect patterns
+    present at that step); None when the failure cannot be located (then the shrunk input is the key)"""
+    if r["kind"] not in ("value", "zero"):
+        return None
+    try:
+        node = _blame(case, _call_tree(case, r.get("strategy")))
+    except Exception:
+        return None
+    step, tags = _local_class(node)
+    if step is None:
+        return None
+    # the patterns overlap freely; the key names the first one present (fixed priority = sorted order), or "none"
+    # (a step that is wrong without any of the known patterns is a NEW finding: that key is never listed)
+    return json.dumps([r["kind"], step, tags[0] if tags else "none"])
 
 
 SHRINK = K.Shrinker(PROP, ("event",), _evaluate, ("g", "event", "seed"))
@@ -179,7 +335,10 @@ def run_python(case):
     nontrivial = r["in_domain"] and K.n_worlds(ev) >= 1 and bool(case["g"]["di"] or case["g"]["bi"]) and past3 and \
         shape in ("P", "sum", "prod", "unidentifiable", "zero")
     out = {"out": ["orders", by_order], "fail": r["fail"], "nontrivial": bool(nontrivial), "tags": tags}
-    if r["fail"] and not case.get("_noshrink"):
+    ck = _coarse_key(case, r) if r["fail"] else None
+    if ck is not None:
+        out["finding_key"] = ck
+    elif r["fail"] and not case.get("_noshrink"):
         small, key = SHRINK.shrink_to_key(case, r["kind"])
         out["shrunk"] = small
         out["finding_key"] = key
@@ -209,21 +368,31 @@ def canon_model(case, rep):
     return ["orders", [_canon_one(r) for r in rep[1:]]]
 
 
+def case_key(case):
+    """the finding key of a failing input (used by C08 for failures it inherits from ID*); None if it does not fail"""
+    r = _evaluate(case, with_unpatched=False)
+    if not r["fail"]:
+        return None
+    ck = _coarse_key(case, r)
+    if ck is not None:
+        return ck
+    return SHRINK.shrink_to_key(case, r["kind"])[1]
+
+
 def shrink(case):
     if case.get("_noshrink"):
         return
     r = _evaluate(case)
     if r["fail"]:
-        small, _ = SHRINK.shrink_to_key(case, r["kind"])
-        small = dict(small, _noshrink=True)
-        yield small
+        small = SHRINK.shrink_fully(case, r["kind"])     # a small replay; the finding key is computed on the ORIGINAL input
+        yield dict(small, _noshrink=True)
 
 
 def finding_key(case, res):
     if res.get("finding_key"):
         return res["finding_key"]
     r = _evaluate(case)
-    return SHRINK.key_of(case, r["kind"])
+    return _coarse_key(case, r) or SHRINK.key_of(case, r["kind"])
 
 
 MANIFEST = {
